@@ -2,7 +2,9 @@ package simrt
 
 import (
 	"cmp"
+	"errors"
 	"fmt"
+	"io"
 	"reflect"
 	"runtime"
 	"sort"
@@ -200,4 +202,19 @@ func MapWriteEnd(p uintptr) {
 		}
 		t.S.mu.Unlock()
 	}
+}
+
+var errRunOver = errors.New("simrt: the simulated run is over")
+
+// Pipe replaces io.Pipe in instrumented packages: the same pipe, remembered so that the end of the
+// run can break it (see Sim.kill).
+func Pipe() (*io.PipeReader, *io.PipeWriter) {
+	pr, pw := io.Pipe()
+	if t := Cur(); t != nil {
+		s := t.S
+		s.mu.Lock()
+		s.closers = append(s.closers, func() { pr.CloseWithError(errRunOver); pw.CloseWithError(errRunOver) })
+		s.mu.Unlock()
+	}
+	return pr, pw
 }
